@@ -49,6 +49,7 @@ struct CaseOutcome {
     std::string detail;              // human-readable detail
     std::string known;               // non-empty: failure is explained by this open known finding
     std::vector<std::string> tags;   // class labels for the distribution histogram
+    std::vector<std::pair<std::string, long>> counters;   // additive counters (e.g. crash images examined)
     void fail(const std::string & c, const std::string & d) { if (ok) { ok = false; clause = c; detail = d; } }
 };
 
